@@ -11,10 +11,16 @@ import (
 	"encoding/json"
 	"fmt"
 	"math"
+	"net"
+	"strings"
 	"testing"
 
+	"github.com/EdgeCast/vflow/ipfix"
+	netflow5 "github.com/EdgeCast/vflow/netflow/v5"
+	netflow9 "github.com/EdgeCast/vflow/netflow/v9"
 	"github.com/EdgeCast/vflow/reader"
 	"pgregory.net/rapid"
+	"verif/harness/wire"
 )
 
 type c19Op struct {
@@ -33,10 +39,14 @@ type c19Case struct {
 	// BigLen > 0: the window is BigLen octets of a fixed pattern (octet i = i*31+7) instead of Buf — buffers
 	// beyond the 8- and 16-bit marks without megabytes of hex in the case
 	BigLen int `json:"big_len,omitempty"`
+	// Prelude: datagrams this process decodes (IPFIX, NetFlow v9, NetFlow v5 decoders, each reading its datagram through
+	// readers of its own) before the reader under test is created: "every buffer" includes buffers read in a process
+	// that has read others before
+	Prelude []string `json:"prelude,omitempty"`
 }
 
 const c19Rule = "case = buffer (0..64 octets, in 1 case of 16 a patterned buffer of 255..1 Mi octets around the 8-, 16- and 17-bit marks; window into a sentinel-filled array so cap>len) + 1..40 reader operations (one in 40 repeated 255..70000 times) " +
-	"(Uint8/16/32/64, Read n, Peek n, PeekUint16, Len, ReadCount; n in 0..len+8 and huge values up to MaxInt); " +
+	"(Uint8/16/32/64, Read n, Peek n, PeekUint16, Len, ReadCount; n in 0..len+8 and huge values up to MaxInt); in a quarter of the cases the process lets 1..4 of the collector's decoders read a datagram (complete or cut short) before the reader under test is created, and a fresh reader must report 0 octets consumed; " +
 	"non-trivial = a failed read is later followed by a successful read and the sequence has >=1 peek; distinct by hash of the case"
 
 func genC19(t *rapid.T) c19Case {
@@ -63,6 +73,9 @@ func genC19(t *rapid.T) c19Case {
 		}
 
 		c.Ops = append(c.Ops, op)
+	}
+	if rapid.IntRange(0, 3).Draw(t, "withprelude") == 0 {
+		c.Prelude = rapid.SliceOfN(rapid.SampledFrom([]string{"nf5", "ipfix", "nf9", "nf5-short", "ipfix-short", "nf9-short"}), 1, 4).Draw(t, "prelude")
 	}
 	if rapid.IntRange(0, 29).Draw(t, "rep") == 0 {
 		op := &c.Ops[rapid.IntRange(0, len(c.Ops)-1).Draw(t, "repidx")]
@@ -106,6 +119,12 @@ func runC19(c c19Case) (v verdict, sig string, err error) {
 		}
 	}()
 
+	for _, k := range c.Prelude {
+		if e := c19Prelude(k); e != nil {
+			return v, "", e
+		}
+	}
+	v.label(len(c.Prelude) > 0, "decoders-ran-before")
 	r := reader.NewReader(window)
 	pos := 0
 	failedRead, okAfterFail, peeks := false, false, 0
@@ -152,6 +171,9 @@ func runC19(c c19Case) (v verdict, sig string, err error) {
 			okAfterFail = true
 		}
 		return nil
+	}
+	if e := check(-1, "fresh reader"); e != nil {
+		return v, "mismatch", e
 	}
 	var flat []c19Op
 	for _, op := range c.Ops {
@@ -267,6 +289,37 @@ func runC19(c c19Case) (v verdict, sig string, err error) {
 	v.label(pos == len(buf) && len(buf) > 0, "fully-consumed")
 	v.label(len(buf) == 0, "empty-buffer")
 	return v, "", nil
+}
+
+// c19Prelude lets one of the collector's decoders read a small datagram (complete, or cut inside a record so that the
+// decoder stops on a failed read); the outcome is none of C19's business.
+func c19Prelude(kind string) error {
+	defer func() { recover() }()
+	var b []byte
+	tpl := wire.Template{ID: 300, Fields: []wire.Field{{ID: 8, Len: 4, Type: wire.TIPv4}, {ID: 7, Len: 2, Type: wire.TUint16}}}
+	rec := wire.Record{Vals: []wire.Hex{{10, 0, 0, 1}, {0, 80}}}
+	switch strings.TrimSuffix(kind, "-short") {
+	case "nf5":
+		b = make([]byte, 24+48)
+		b[1], b[3] = 5, 1
+		netflow5.NewDecoder(net.IP{127, 0, 0, 1}, cutIf(b, kind)).Decode()
+	case "ipfix":
+		m := wire.Msg{Proto: "ipfix", Seq: 1, Sets: []wire.Set{{Kind: "tpl", Tpls: []wire.Template{tpl}}, {Kind: "data", Tpl: &tpl, Recs: []wire.Record{rec, rec}}}}
+		ipfix.NewDecoder(net.IP{127, 0, 0, 1}, cutIf(m.Bytes(), kind)).Decode(ipfix.GetCache(""))
+	case "nf9":
+		m := wire.Msg{Proto: "nf9", Seq: 1, Sets: []wire.Set{{Kind: "tpl", Tpls: []wire.Template{tpl}}, {Kind: "data", Tpl: &tpl, Recs: []wire.Record{rec, rec}}}}
+		netflow9.NewDecoder(net.IP{127, 0, 0, 1}, cutIf(m.Bytes(), kind)).Decode(netflow9.GetCache(""))
+	default:
+		return fmt.Errorf("bad case: prelude %q", kind)
+	}
+	return nil
+}
+
+func cutIf(b []byte, kind string) []byte {
+	if strings.HasSuffix(kind, "-short") && len(b) > 3 {
+		return b[:len(b)-3]
+	}
+	return b
 }
 
 func TestC19(t *testing.T) {
